@@ -181,6 +181,17 @@ CHECKS = {
              "compositions are compared with the library's exact Karatsuba routine (bound to the ring definition by C11); TLC accepts a row iff every deviation is within FftTol(B) = 2 (1 for the round trip), growing as 2B/2^9 above 2^9. Each dense case runs in its own child so that an assertion of a debug build is itself an observation.",
         note="Exploration level: inputs are sampled families, and why a kernel achieves 2 units is numerical analysis outside TLA+. Found and repaired: D7 (spqlios-avx SubMul register typo). Recorded finding D6: debug builds of the nayuki back-ends abort in check_alternate_real on large-magnitude inputs (see known-findings.txt).",
         design="§6 C10"),
+    "C07": dict(
+        category="exploration",
+        technique="Trace specification Trace_Noise over TraceStats: running moments / maxima / histograms as TLA+ state with acceptance regions as predicates, and a memo formulation (Functional / Fresh / Seed) of the library generator as hidden state; "
+                  "events recorded from the real sampler, encryptions and key generators validated by TLC",
+        text="Generator: the harness re-seeds with the same seed twice and with different seeds, generates keys, encrypts the same message repeatedly and builds a complete gate key set; each randomised call is an event with the generator token before/after "
+             "and hashes of arguments and output. TLC requires the output and next token to be a function of (call, token, arguments), the token to advance, outputs from different tokens to differ, and re-seeding to be a function of the seed -- so a second randomness source, "
+             "state surviving a re-seed, or a reused mask are rejected. Distribution: phase errors (computed with the secret keys) of fresh LWE/TLWE/TGSW samples for alpha in {2^-30,...,2^-5, 0}, of every non-zero-digit row of the generated key-switching key and of sampled bootstrapping-key rows "
+             "(x1024 coefficients) for both default sets generated in one process are streamed in units of alpha/64; TLC accumulates n, sum, sum of squares, max per stream and accepts iff sd = 64 within 8 estimator sigma plus the 2^-32 discretisation (both sides), |mean| <= 8 sigma/sqrt(n), "
+             "max < 10 sigma, the mask top-bits histogram is uniform within 8 binomial sigma, alpha = 0 gives exactly zero error, key bits are balanced, and digit-0 key-switching rows are exactly trivial.",
+        note="Statistical acceptance, not proof (false-alarm probability < 1e-14 per statistic; a 15 % change of a key row noise level is detected at the quick sample sizes). Distribution shape beyond two moments, maximum and a coarse histogram is not decided.",
+        design="§6 C07"),
 }
 
 HOOK_COMMITS = ["f8e83e6", "cb256e3"]
